@@ -33,7 +33,7 @@ for p in props:
             "quick_cmd": "./run.sh %s quick" % pid,
             "thorough_cmd": "./run.sh %s thorough" % pid,
             "evidence_file": "/verif/evidence/%s.json" % pid,
-            "replay_cmd_template": "cat {path}  # the file names the exact command: VERIF_SEED=<seed> ./bin/nv check %s -tier <tier> -case <k>" % pid,
+            "replay_cmd_template": "bash -c \"$(jq -r .replay {path})\"   # re-runs exactly the violating case: VERIF_SEED=<seed> /verif/bin/nv check %s -tier <tier> -case <k> (binary from the last ./run.sh)" % pid,
             "engine": "nv",
             "level_claimed": {"category": c["level"], "text": c["text"], "design_ref": c.get("design_ref", "DESIGN.md §2 " + pid)},
             "level_note": c["note"],
